@@ -151,6 +151,92 @@ def check_invariance(case, ctx):
             raise Violation(name, msg)
 
 
+def check_redefine(case, ctx):
+    """parametric use of ONE object: after matrices were computed the definition is edited (offset, density, size, flags)
+    and calc_kM is asked again; the answer must be the mass matrix of the NEW definition."""
+    name = 'kM.redefined[%s]' % case['model']
+    p = pkg.make_panel(case)
+    with package(name + '.first'):
+        p.calc_k0(silent=True)
+        p.calc_kM(silent=True)
+    new = dict(case)
+    new['lam'] = dict(case['lam'], offset=case['new_offset'] * pkg.lam_h(case))
+    new['mu'] = case['new_mu']
+    new['a'] = case['a'] * case['new_a']
+    ctx.nontrivial = True
+    ctx.label('model:' + case['model'], 'calc_k0-between' if case['k0_between'] else 'kM-directly')
+    p.offset = new['lam']['offset']
+    p.mu = new['mu']
+    p.a = new['a']
+    with package(name):
+        if case['k0_between']:
+            p.calc_k0(silent=True)
+        M = dense(p.calc_kM(silent=True))
+    q = pkg.make_panel(new)
+    with package(name + '.fresh'):
+        q.calc_k0(silent=True)
+        Mq = dense(q.calc_kM(silent=True))
+    ctx.close('kM(after edit)==kM(fresh object)', M, Mq, 1e-12, bucket=name)
+
+
+def check_bay_mass(case, ctx):
+    """StiffPanelBay.calc_kM: unit rigid translations of an unrestrained flat bay weigh skin + stiffener bases + 1-D flanges,
+    each with its own density."""
+    from .C07 import build_bay
+    name = 'kM[bay].total-mass'
+    with package(name + '.build'):
+        spb, stiffs = build_bay(case)
+        M = dense(spb.calc_kM(silent=True))
+    m, n = case['m'], case['n']
+    n0 = 3 * m * n
+    h = float(sum(case['lam']['plyts']))
+    mass = case['mu'] * h * case['a'] * case['b']
+    for s, sc in zip(stiffs, case['stiffeners']):
+        mu_s = sc.get('mu') if sc.get('mu') is not None else case['mu']
+        hs = float(sum(sc['lam']['plyts']))
+        ys = case['cuts'][sc['cut']]
+        if sc['kind'] == 'blade1d':
+            mass += mu_s * hs * sc['bf'] * case['a']
+        if sc['kind'] in ('blade1d', 'blade2d') and sc.get('base'):
+            # these bases are laid on the skin amplitudes over y in [ys - bb/2, ys + bb/2] (TStiff2D bases and all 2-D flanges
+            # carry their own amplitudes and are not moved by a translation of the skin amplitudes alone)
+            mass += mu_s * hs * sc['bb'] * case['a']
+    ctx.nontrivial = any(sc.get('mu') is not None for sc in case['stiffeners'])
+    ctx.label('stiffeners:%d' % len(stiffs), *['kind:' + sc['kind'] for sc in case['stiffeners']])
+    for comp in (0, 1, 2):
+        c = np.zeros(M.shape[0])
+        for j in (0, 2):
+            for i in (0, 2):
+                c[3 * (j * m + i) + comp] = 1.
+        # flanges/bases of 2-D stiffeners that have their own amplitudes stay at rest: only skin-carried mass is counted
+        q = c.dot(M).dot(c)
+        ctx.ok(abs(q - mass) <= 1e-9 * mass, name, 'translation %s: c^T M c = %r, sum of component masses = %r' % ('uvw'[comp], q, mass))
+
+
+@st.composite
+def _redefine_strategy(draw, tier='quick'):
+    case = draw(pkg.panel_case(models=('plate', 'cpanel', 'plate_w', 'kpanel'), mmax=4, with_mu=True, max_plies=2, sub_interval=False))
+    case['new_offset'] = draw(gen.fl(-2., 2.))
+    case['new_mu'] = draw(gen.logfl(1., 1e4))
+    case['new_a'] = draw(gen.fl(0.5, 1.5)) if case['model'] != 'kpanel' else 1.
+    case['k0_between'] = draw(st.booleans())
+    return case
+
+
+@st.composite
+def _baymass_strategy(draw, tier='quick'):
+    from .C07 import bay_case
+    case = draw(bay_case(max_stiff=3, kinds=('blade1d', 'blade1d', 'tstiff2d', 'blade2d'), curved=False))
+    case['flags'] = dict(zip(gen.flag_names(), [1.] * 24))
+    case['m'] = max(case['m'], 3)
+    case['n'] = max(case['n'], 3)
+    # 2-D stiffener flanges carry their own amplitudes (not moved by a skin translation); their bases are skin-carried
+    for sc in case['stiffeners']:
+        if sc['kind'] == 'blade2d':
+            sc['base'] = sc.get('base', False)
+    return case
+
+
 @st.composite
 def _strategy(draw, tier='quick'):
     mmax = 5 if tier == 'quick' else 8
@@ -188,4 +274,10 @@ SUBS = [
         rule='unrestrained flat panels (also on sub-intervals): unit translations give mu*h*area', shards_quick=8),
     Sub('invariance', _inv_strategy, check_invariance, quick=48, thorough=600,
         rule='unrestrained homogeneous single-ply flat panels: eigenvalues of (k0(d), kM(d)) equal those at d=0', shards_quick=8),
+    Sub('redefine', _redefine_strategy, check_redefine, quick=96, thorough=1500,
+        rule='one Panel object reused after its offset, density and length were edited: calc_kM (with or without a calc_k0 in between) '
+             'equals the matrix of a fresh object with the new definition', shards_quick=16),
+    Sub('bay_mass', _baymass_strategy, check_bay_mass, quick=64, thorough=1000,
+        rule='unrestrained flat bays with 0..3 stiffeners (own densities): unit translations weigh skin + bases + 1-D flanges; '
+             'non-trivial = a stiffener with its own density', shards_quick=16),
 ]
